@@ -812,6 +812,12 @@ fn run_history(
             break;
         }
     }
+    tot.add(
+        "admission.not_judged.double_claimed_input_released",
+        h.model
+            .excluded_released
+            .load(std::sync::atomic::Ordering::Relaxed),
+    );
     report.evals(evals);
     for (k, v) in h.counters.iter().chain(tot.counters.iter()) {
         report.add(k, *v);
@@ -965,6 +971,10 @@ fn thresholds(report: &Report, focus: Focus, selftest: bool) {
             report.require("insert.rejected.UtxoInputWasAlreadySpent", 15_000);
             report.require("insert.outcome.pending", 20_000);
             report.require("insert.admitted_spending_unsettled_output", 5_000);
+            report.require(
+                "probe.stale_view.respend_input_of_imported_pooled_tx.not_accepted",
+                500,
+            );
         }
         Focus::C20 => {
             report.require("block.commits_pooled_tx", 3_500);
@@ -976,6 +986,11 @@ fn thresholds(report: &Report, focus: Focus, selftest: bool) {
             report.require("probe.spend_withdrawn_output.not_accepted", 1_200);
             report.require("probe.spend_committed_input.not_accepted", 3_000);
             report.require("probe.spend_stale_preconfirmed_output.not_accepted", 500);
+            report.require("block.stale_view_after_import_of_pooled_not_extracted_tx", 800);
+            report.require(
+                "probe.stale_view.respend_input_of_imported_pooled_tx.not_accepted",
+                700,
+            );
         }
         Focus::C21 => {
             report.require("sink.squeezed_out", 30_000);
